@@ -74,6 +74,12 @@ def strategy(shapes, kinds=None, extra=None, far_mean=False, sharp=False):
             d = draw(gen.arr((Rx, Dx), 0.5, 1.5)) * np.where(draw(gen.arr((Rx, Dx), -1, 1)) < 0, -1.0, 1.0)
             case["px"]["mu"] = np.asarray(case["px"]["mu"], float) + off * d
             case["far_mean"] = off
+        if kind != "nn" and not case.get("sharp") and draw(st.sampled_from([False] * 7 + [True])):
+            # coincidence between arguments: the first observation lies exactly on the predicted mean of the first point
+            Mn, bn, _ = gen.cond_np(case["c"])
+            case["y"] = np.array(case["y"], float)
+            case["y"][0] = Mn[0] @ np.asarray(case["x"], float)[0] + bn[0]
+            case["y_on_mean"] = True
         if extra:
             extra(draw, case)
         return case
@@ -84,7 +90,7 @@ def strategy(shapes, kinds=None, extra=None, far_mean=False, sharp=False):
 def labels(case):
     combo = "(1,1)" if case["Rc"] == 1 and case["Rx"] == 1 else ("(1,n)" if case["Rc"] == 1 else "(n,1)")
     reg = "Dx>Dy" if case["Dx"] > case["Dy"] else ("Dx=Dy" if case["Dx"] == case["Dy"] else "Dx<Dy")
-    return [f"kind={case['kind']}", f"combo={combo}", reg, f"ctor={case['c'].get('ctor')}", f"unit_scale={case.get('unit_scale', 1.0):g}"] + (["far_mean"] if case.get("far_mean") else []) + (["sharp_observation"] if case.get("sharp") else [])
+    return [f"kind={case['kind']}", f"combo={combo}", reg, f"ctor={case['c'].get('ctor')}", f"unit_scale={case.get('unit_scale', 1.0):g}"] + (["far_mean"] if case.get("far_mean") else []) + (["sharp_observation"] if case.get("sharp") else []) + (["y_on_predicted_mean"] if case.get("y_on_mean") else [])
 
 
 def nontrivial(case):
